@@ -3,6 +3,7 @@ package main
 import (
 	"bytes"
 	"fmt"
+	"github.com/thomasjungblut/go-sstables/recordio"
 	"math/rand"
 	"os"
 	"path/filepath"
@@ -125,7 +126,21 @@ func (c *c01Case) Kind() string {
 	return fmt.Sprintf("steps=%s/thr=%d/ratio=%d/max=%d", bucket(len(c.Steps)), c.Opts.Threshold, c.Opts.RatioPct, c.Opts.MaxSize)
 }
 
+var dioAvailable, _ = recordio.IsDirectIOAvailable()
+
 func randDbOpts(r *rand.Rand) dbOpts {
+	o := randDbOpts0(r)
+	switch r.Intn(8) {
+	case 0:
+		o.AsyncWAL = true
+	case 1:
+		// the asynchronous log through direct I/O (with any of the buffer sizes of the session)
+		o.AsyncWAL, o.DirectIOWAL = true, dioAvailable
+	}
+	return o
+}
+
+func randDbOpts0(r *rand.Rand) dbOpts {
 	return dbOpts{
 		MemstoreBytes: 1 << 30,
 		Threshold:     []int{0, 1, 2, 3, 10}[r.Intn(5)],
@@ -158,6 +173,9 @@ func genDbProgram(r *rand.Rand, nsteps int, keys [][]byte) []dbStep {
 			op := "del"
 			if r.Intn(3) == 0 {
 				op = "delb"
+			}
+			if r.Intn(6) == 0 {
+				k = []byte{} // Delete accepts the empty key (Put does not)
 			}
 			steps = append(steps, dbStep{Op: op, K: k})
 		case x < 15:
